@@ -102,6 +102,62 @@ func checkC16(p *Program, r *Reporter) {
 			}
 		}
 	}
+	// a request body can be sent once: a request created inside a loop must not take its body from outside the loop
+	r.Rule("E5-BODYONCE", "a request created in a (retry) loop gets a body created in the same iteration", 0)
+	for _, fn := range ingesterFuncs(p) {
+		for _, b := range fn.Blocks {
+			for _, in := range b.Instrs {
+				c, ok := in.(*ssa.Call)
+				if !ok || c.Call.StaticCallee() == nil {
+					continue
+				}
+				n := c.Call.StaticCallee().String()
+				if n != "net/http.NewRequestWithContext" && n != "net/http.NewRequest" {
+					continue
+				}
+				body := c.Call.Args[len(c.Call.Args)-1]
+				var loop map[*ssa.BasicBlock]bool
+				for d := b; d != nil; d = d.Idom() {
+					if l := naturalLoop(d); l != nil && l[b] {
+						loop = l
+						break
+					}
+				}
+				if loop == nil {
+					r.Discharge("E5-BODYONCE", shortFn(fn), "request-body", p.pos(c.Pos()), "the request is not created in a loop")
+					continue
+				}
+				// the reader behind the body: strip interface boxing, follow to its defining instruction
+				src := body
+				for {
+					if mi, ok := src.(*ssa.MakeInterface); ok {
+						src = mi.X
+						continue
+					}
+					if ci, ok := src.(*ssa.ChangeInterface); ok {
+						src = ci.X
+						continue
+					}
+					break
+				}
+				inLoop := true
+				if def, ok := src.(ssa.Instruction); ok {
+					if _, isLoad := src.(*ssa.UnOp); isLoad {
+						inLoop = false // loaded from a variable or field that outlives the iteration
+					} else {
+						inLoop = loop[def.Block()]
+					}
+				} else {
+					inLoop = false // parameter, free variable, global
+				}
+				if isNilConst(body) {
+					inLoop = true
+				}
+				r.Decide(inLoop, "E5-BODYONCE", shortFn(fn), "request-body", p.pos(c.Pos()), "the body reader is created in the same iteration",
+					"the request is created in a loop but its body reader comes from outside the loop: the first attempt drains it and every further attempt sends an empty body", nil)
+			}
+		}
+	}
 	// setReqHeaders itself
 	r.Rule("E5-SETHDR", "setReqHeaders: version header unconditional, content type per media kind, credentials exactly when configured", 3)
 	ffH := factsOf(srh)
